@@ -125,41 +125,50 @@ end
 /-! ### chart recogniser (executable membership oracle)
 
 A chart is a list of facts `(X, i, j)` meaning "`X` derives `w[i:j]`".  One
-round adds every fact that some production justifies from the current chart;
-the recogniser iterates until a round adds nothing (then the chart is closed
-under the productions, which gives completeness) and answers whether
-`(start, 0, |w|)` is there.  `none` = fuel exhausted before the fixpoint. -/
+pass visits every (production, span) pair and adds the fact a production
+justifies from the chart built so far; the recogniser repeats passes until one
+adds nothing (then the chart is closed under the productions, which gives
+completeness) and answers whether the start symbol matches `w[0:|w|]`.
+`none` = fuel exhausted before the fixpoint. -/
 
 abbrev Fact := Nat × Nat × Nat
 
 def symAt (G : Grammar) (w : List Nat) (chart : List Fact) (X i k : Nat) : Bool :=
-  (G.isTerm X && k == i + 1 && w[i]? == some X) || chart.contains (X, i, k)
+  (G.isTerm X && k == i + 1 && w[i]? == some X) || (G.isNonterm X && chart.contains (X, i, k))
 
 /-- can the sentential form `α` be matched on `w[i:j]`, reading nonterminal spans from the chart? -/
 def matchRhs (G : Grammar) (w : List Nat) (chart : List Fact) : List Nat → Nat → Nat → Bool
   | [], i, j => i == j
-  | X :: rest, i, j =>
-    (List.range (j + 1 - i)).any (fun d => symAt G w chart X i (i + d) && matchRhs G w chart rest (i + d) j)
+  | [X], i, j => decide (i ≤ j) && symAt G w chart X i j
+  | X :: Y :: rest, i, j =>
+    (List.range (j + 1 - i)).any (fun d =>
+      symAt G w chart X i (i + d) && matchRhs G w chart (Y :: rest) (i + d) j)
 
-/-- all spans `(i, j)` with `i ≤ j ≤ n` -/
+/-- all spans `(i, j)` with `i ≤ j ≤ n`, shortest first -/
 def spans (n : Nat) : List (Nat × Nat) :=
-  (List.range (n + 1)).flatMap (fun i => (List.range (n + 1 - i)).map (fun d => (i, i + d)))
+  (List.range (n + 1)).flatMap (fun d => (List.range (n + 1 - d)).map (fun i => (i, i + d)))
 
-/-- the facts one round can add -/
-def newFacts (G : Grammar) (w : List Nat) (chart : List Fact) : List Fact :=
-  G.prods.flatMap (fun p =>
-    ((spans w.length).filter (fun ij =>
-        !chart.contains (p.lhs, ij.1, ij.2) && matchRhs G w chart p.rhs ij.1 ij.2)).map
-      (fun ij => (p.lhs, ij.1, ij.2)))
+/-- every (production, span) pair -/
+def candidates (G : Grammar) (n : Nat) : List (Prod × Nat × Nat) :=
+  (spans n).flatMap (fun ij => G.prods.map (fun p => (p, ij.1, ij.2)))
+
+/-- one pass over the candidates; the flag says whether a fact was added -/
+def chartPass (G : Grammar) (w : List Nat) :
+    List (Prod × Nat × Nat) → List Fact → Bool → List Fact × Bool
+  | [], chart, ch => (chart, ch)
+  | c :: cs, chart, ch =>
+    if !chart.contains (c.1.lhs, c.2.1, c.2.2) && matchRhs G w chart c.1.rhs c.2.1 c.2.2 then
+      chartPass G w cs ((c.1.lhs, c.2.1, c.2.2) :: chart) true
+    else chartPass G w cs chart ch
 
 def chartLoop (G : Grammar) (w : List Nat) : Nat → List Fact → Option (List Fact)
   | 0, _ => none
   | fuel + 1, chart =>
-    let add := newFacts G w chart
-    if add.isEmpty then some chart else chartLoop G w fuel (chart ++ add)
+    let r := chartPass G w (candidates G w.length) chart false
+    if r.2 then chartLoop G w fuel r.1 else some r.1
 
 /-- membership of `w` in the language of `G` (`none` only if `fuel` is too small;
-`(number of nonterminals)·(|w|+1)² + 1` rounds always suffice). -/
+`(number of nonterminals)·(|w|+1)² + 1` passes always suffice). -/
 def recognise (G : Grammar) (fuel : Nat) (w : List Nat) : Option Bool :=
   (chartLoop G w fuel []).map (fun chart => matchRhs G w chart [G.start] 0 w.length)
 
